@@ -254,6 +254,10 @@ func createObjectMergePatch(originalJSON, modifiedJSON []byte) ([]byte, error) {
 	originalDoc := map[string]interface{}{}
 	modifiedDoc := map[string]interface{}{}
 
+	if !json.Valid(originalJSON) || !json.Valid(modifiedJSON) {
+		return nil, ErrBadJSONDoc
+	}
+
 	err := unmarshal(originalJSON, &originalDoc)
 	if err != nil {
 		return nil, ErrBadJSONDoc
@@ -283,6 +287,10 @@ func unmarshal(data []byte, into interface{}) error {
 func createArrayMergePatch(originalJSON, modifiedJSON []byte) ([]byte, error) {
 	originalDocs := []json.RawMessage{}
 	modifiedDocs := []json.RawMessage{}
+
+	if !json.Valid(originalJSON) || !json.Valid(modifiedJSON) {
+		return nil, ErrBadJSONDoc
+	}
 
 	err := unmarshal(originalJSON, &originalDocs)
 	if err != nil {
